@@ -158,6 +158,32 @@ def sign_of(e):
     return None
 
 
+_LEAF_NAMES = {}
+
+
+def leaf_name(t, names=None):
+    """printed name of an opaque leaf; large terms get a bounded prefix plus a structural hash (names must be unique per
+    structurally distinct term, not readable in full)"""
+    key = (id(t), id(names))
+    hit = _LEAF_NAMES.get(key)
+    if hit is not None and hit[0] is t:
+        return hit[1]
+    n = 0
+    big = False
+    for _ in walk(t):
+        n += 1
+        if n > 250:
+            big = True
+            break
+    if not big:
+        name = show(t, names)
+    else:
+        head = t[0] if t[0] != 'uf' else 'uf:%s' % t[1]
+        name = '%s⟨…%012x⟩' % (head, hash(t) & 0xffffffffffff)
+    _LEAF_NAMES[key] = (t, name)
+    return name
+
+
 class Ctx:
     """sign context of one cofactor: leaf symbols with assumptions + re-parametrisations"""
 
@@ -172,7 +198,7 @@ class Ctx:
         self.atoms = set()
 
     def leaf(self, t):
-        n = show(t, self.pv.names)
+        n = leaf_name(t, self.pv.names)
         s = self.plain.get(n)
         if s is None:
             s = sp.Symbol(n, real=True)
